@@ -16,7 +16,18 @@ pub assume_specification [<Error as From<std::convert::Infallible>>::from] (k: s
 #[verifier::external_body] pub struct Error(Box<u8>);
 pub type Result<T = ()> = std::result::Result<T, Error>;
 pub uninterp spec fn err_is_invalid_response(e: Error, k: InvalidResponseKind) -> bool;
+//@@ ifdef errorkind
+pub assume_specification[ <Error as From<InvalidResponseKind>>::from ](k: InvalidResponseKind) -> (r: Error)
+    ensures err_is_invalid_response(r, k), err_kind(r) is InvalidResponse;
+//@@ endif
+//@@ ifndef errorkind
 pub assume_specification[ <Error as From<InvalidResponseKind>>::from ](k: InvalidResponseKind) -> (r: Error)
     ensures err_is_invalid_response(r, k);
+//@@ endif
+//@@ ifdef errorkind
+pub assume_specification[ <Error as From<io::Error>>::from ](e: io::Error) -> (r: Error) ensures err_kind(r) is Io;
+//@@ endif
+//@@ ifndef errorkind
 pub assume_specification[ <Error as From<io::Error>>::from ](e: io::Error) -> (r: Error);
+//@@ endif
 pub assume_specification[ <io::Error as From<InvalidResponseKind>>::from ](k: InvalidResponseKind) -> (r: io::Error);
